@@ -2297,7 +2297,9 @@ class FileSet:
             # Store the data of the file with the new file handler
             destination.write(data, new_filename)
 
-            if not copy:
+            # (If the file keeps its name - converting in place - it has just
+            # been rewritten and must of course not be removed.)
+            if not copy and new_filename != file_info.path:
                 os.remove(file_info.path)
         else:
             # Create the new directory if necessary.
